@@ -33,9 +33,10 @@ theorem updateLabels_inv {st : Idx} (h : Inv st) (id : Nat) (labels : List (Str 
   simp only []
   rw [mem_scanSelectors _ _ _ _ h.selsNodup, lookup_insert]
   simp only [effLabels_eq_effP]
-  by_cases hq : q.2 = id
-  · have hq' : id = q.2 := hq.symm
-    simp only [hq, hq', if_true, true_and, ne_eq, not_true_eq_false, false_or]
+  obtain ⟨q1, q2⟩ := q
+  by_cases hq : q2 = id
+  · subst hq
+    simp only [if_true, true_and, ne_eq, not_true_eq_false, false_or]
     constructor
     · rintro (⟨n, h1, h2⟩ | ⟨h1, h2⟩)
       · exact ⟨n, _, h1, rfl, h2⟩
@@ -43,9 +44,9 @@ theorem updateLabels_inv {st : Idx} (h : Inv st) (id : Nat) (labels : List (Str 
     · rintro ⟨n, it, h1, h2, h3⟩
       cases h2
       exact Or.inl ⟨n, h1, h3⟩
-  · have hq' : ¬ id = q.2 := fun e => hq e.symm
+  · have hq' : ¬ id = q2 := fun e => hq e.symm
     simp only [hq, hq', if_false, false_and, false_or, ne_eq, not_false_eq_true, true_or, true_and]
-    exact inv_sound' h q
+    exact inv_sound' h (q1, q2)
 
 theorem updateSelector_go_inv {st : Idx} (h : Inv st) (id : Nat) (n : Node) :
     Inv (updateSelector.go st id n).1 := by
@@ -56,9 +57,10 @@ theorem updateSelector_go_inv {st : Idx} (h : Inv st) (id : Nat) (n : Node) :
   simp only []
   rw [mem_scanItems _ _ _ _ h.itemsNodup, lookup_insert]
   simp only [effLabels_eq_effP]
-  by_cases hq : q.1 = id
-  · have hq' : id = q.1 := hq.symm
-    simp only [hq, hq', if_true, true_and, ne_eq, not_true_eq_false, false_or]
+  obtain ⟨q1, q2⟩ := q
+  by_cases hq : q1 = id
+  · subst hq
+    simp only [if_true, true_and, ne_eq, not_true_eq_false, false_or]
     constructor
     · rintro (⟨it, h1, h2⟩ | ⟨h1, h2⟩)
       · exact ⟨n, it, rfl, h1, h2⟩
@@ -66,9 +68,9 @@ theorem updateSelector_go_inv {st : Idx} (h : Inv st) (id : Nat) (n : Node) :
     · rintro ⟨n', it, h1, h2, h3⟩
       cases h1
       exact Or.inl ⟨it, h2, h3⟩
-  · have hq' : ¬ id = q.1 := fun e => hq e.symm
+  · have hq' : ¬ id = q1 := fun e => hq e.symm
     simp only [hq, hq', if_false, false_and, false_or, ne_eq, not_false_eq_true, true_or, true_and]
-    exact inv_sound' h q
+    exact inv_sound' h (q1, q2)
 
 theorem updateSelector_inv {st : Idx} (h : Inv st) (id : Nat) (n : Node) : Inv (updateSelector st id n).1 := by
   unfold updateSelector
@@ -112,13 +114,14 @@ theorem flushChildren_inv {st : Idx} (h : Inv st) (pid : Str) (ps : List (Str ×
   refine ⟨h.selsNodup, h.itemsNodup, flushItems_nodup _ _ h.matchedNodup, ?_⟩
   intro q
   simp only []
-  rw [mem_flushItems _ h.selsNodup _ hchildNodup]
+  rw [mem_flushItems { st with parents := ps } h.selsNodup _ hchildNodup]
   have hlk : lookup q.2 (children { st with parents := ps } pid) =
       match lookup q.2 st.items with
       | some it => if it.parents.contains pid then some it else none
       | none => none := by
     unfold children
     rw [lookup_filter_of_keysNodup _ _ h.itemsNodup]
+    cases lookup q.2 st.items <;> rfl
   rw [hlk]
   simp only [effLabels_eq_effP]
   cases hit : lookup q.2 st.items with
@@ -142,7 +145,8 @@ theorem flushChildren_inv {st : Idx} (h : Inv st) (pid : Str) (ps : List (Str ×
         cases h2
         exact Or.inl ⟨it, n, rfl, h1, h3⟩
     · simp only [hc, Bool.false_eq_true, if_false, true_or, true_and]
-      have hsame : effLabels { st with parents := ps } it = effLabels st it := by
+      have hsame : effP ps it = effP st.parents it := by
+        unfold effP
         apply effLabels_congr
         intro p hp
         apply hps
@@ -151,12 +155,12 @@ theorem flushChildren_inv {st : Idx} (h : Inv st) (pid : Str) (ps : List (Str ×
       constructor
       · rintro (⟨it', n, h1, _⟩ | h2)
         · cases h1
-        · obtain ⟨n, it', h1, h2', h3⟩ := (h.sound q).mp h2
+        · obtain ⟨n, it', h1, h2', h3⟩ := (inv_sound' h q).mp h2
           rw [hit] at h2'; cases h2'
-          exact ⟨n, it, h1, rfl, hsame ▸ h3⟩
+          exact ⟨n, it, h1, rfl, by rw [hsame]; exact h3⟩
       · rintro ⟨n, it', h1, h2, h3⟩
         cases h2
-        exact Or.inr ((h.sound q).mpr ⟨n, it, h1, hit, hsame ▸ h3⟩)
+        exact Or.inr ((inv_sound' h q).mpr ⟨n, it, h1, hit, by rw [← hsame]; exact h3⟩)
 
 theorem updateParentLabels_inv {st : Idx} (h : Inv st) (pid : Str) (labels : List (Str × Str)) :
     Inv (updateParentLabels st pid labels).1 := by
